@@ -3,14 +3,10 @@ Primitives the translator (`extract/rs2lean.py`) maps Rust operations to, and th
 translated code calls (`ma_code`, `graytobin`, `ais`, `range_value` ... stay hand-written: they loop over slices).
 -/
 import SqModel.Model.Fields
+import SqModel.Model.Cpr
+import SqModel.Model.Country
 
 namespace Sq
-
-/-- `x as i32` for a `u32` value -/
-def u32ToI32 (x : Nat) : Int := if x < 2147483648 then (x : Int) else (x : Int) - 4294967296
-
-/-- `x as u32` for an `i32` value -/
-def i32ToU32 (x : Int) : Nat := (x % 4294967296).toNat
 
 /-- `x as u32` for an `f64` value (saturating, truncating towards zero) -/
 def ratToU32 (q : Rat) : Nat := if q < 0 then 0 else min q.floor.toNat 4294967295
@@ -24,5 +20,16 @@ def arr2Set {α : Type} (a : α × α) (i : Nat) (v : α) : α × α := if i = 0
 
 /-- `a.signed_duration_since(b)` in milliseconds -/
 def durationMs (a b : Int) : Int := a - b
+
+/-- what the translated code takes from outside: the float `atan2` of `track_and_groundspeed`, the process-global
+    observer position (`observer.rs`) and the float `haversine` (`update_position.rs`) -/
+structure TEnv where
+  atan2deg : SignedMag → SignedMag → Nat
+  observer : Option (Rat × Rat)
+  haversine : Rat → Rat → Rat → Rat → Rat
+
+/-- `cpr_location(&self.cpr_lat, &self.cpr_lon, cpr_form, coeff)` on the two-element arrays -/
+def cprLocationArr (lat lon : Nat × Nat) (cprForm : Nat) (coeff : Int) : Option (Rat × Rat) :=
+  cprLocation lat.1 lat.2 lon.1 lon.2 cprForm coeff
 
 end Sq
